@@ -696,9 +696,9 @@ def run_shard(ctx):
     ctx.sample({"mode": "stress", "threads": T})
 
 
-REQUIRE = [("isolation_runs", 1000, "isolation baseline runs"), ("shared_calls", 20000, "calls on shared objects compared with isolation"),
-           ("schedules", 3000, "two-thread schedules executed"), ("stress_rounds", 16, "stress rounds (barriers)"), ("sequential_histories", 16, "sequential histories"),
-           ("fingerprints_compared", 3000, "shared-state fingerprints compared"), ("stress_thread_switches_observed", 1000, "thread switches observed inside joserfc code")]
+REQUIRE = [("isolation_runs", 1000, "isolation baseline runs"), ("shared_calls", 6000, "calls on shared objects compared with isolation"),
+           ("schedules", 1000, "two-thread schedules executed"), ("stress_rounds", 8, "stress rounds (barriers)"), ("sequential_histories", 8, "sequential histories"),
+           ("fingerprints_compared", 1000, "shared-state fingerprints compared"), ("stress_thread_switches_observed", 300, "thread switches observed inside joserfc code")]
 
 
 def replay(ctx, case):
